@@ -1135,7 +1135,8 @@ PROPS['C15'] = {
 }
 PROPS['C20'] = {
     'targets': ['props/C20.vo'],
-    'theorems': [('props.C20', n) for n in ['c20_write', 'c20_read', 'c20_next_access']],
+    'theorems': [('props.C20', n) for n in ['c20_write', 'c20_read', 'c20_next_access', 'c20_next_read_after_write_fault',
+                                                   'c20_next_write_after_read_fault', 'c20_next_read_after_read_fault']],
     'corr_gen': lambda api, rng, n: sample_up_to(rng, fault_sweep_programs(api, rng, ('spi',), max_k=10 if n < 2000 else 24), n),
     'corr_n': (300, 4000), 'monitor': mon_c20, 'monitor_n': (600, 20000), 'judge': check_cs_release, 'trusted_extra': GENERIC_TB,
     'statement': 'for every address, value and burst length: a failing data transfer of spi write_register / read_register returns that '
